@@ -183,11 +183,34 @@ CLAIMED.update({
             "DESIGN.md §3 C02"),
 })
 
+CLAIMED["C18"] = (
+    "table agreement between Display::fmt (decoded format_args! template) and from_str (split separator, per-group parse "
+    "primitive, group-count test, construction order) of the three address types and with the reference forms + error "
+    "discipline of the six address setters",
+    "PARTIAL — decides the structural necessary conditions of C18 only: for MacAddress / Ipv4Address / Ipv6Address the "
+    "separator, radix, number of groups, group width and group order of what a property read displays and of what an "
+    "assignment parses are the same and equal the standard forms (6x8-bit hex ':', 4x8-bit decimal '.', 8x16-bit hex ':'), "
+    "and a text from_str rejects is an Err before anything is stored. It does NOT decide which IPv6 texts are accepted "
+    "(leading / trailing / repeated '::', empty text): that is a value-level fact about the compression loop — the pinned "
+    "tree is known to reject '::1' and '1::' and this check does not report it (DESIGN.md §4).",
+    "u8/u16::from_str_radix and str::parse::<u8> accept exactly the numerals of their radix that fit (std); acceptance of "
+    "zero-compression forms is outside what is decided; " + TRUST,
+    "DESIGN.md §3 C18")
+
+CLAIMED["C12"] = (
+    "table agreement on the renderer's finite tables (specifier letter → number format → formatting trait, escapes, "
+    "argument-selection arithmetic and bounds tests) + sibling agreement of the four printing builtins by path "
+    "enumeration over typed HIR with helpers inlined and format_args! templates decoded",
+    "PARTIAL — decides necessary conditions of C12 only: b/o/x/X select Binary/Octal/LowerHex/UpperHex and no letter "
+    "selects Display; '{{' and '}}' write one brace; an unindexed specifier takes args[cursor] (cursor starts behind "
+    "the format string, +1 per use), an indexed one args[n+1], both behind a bounds test whose failure is an Err; "
+    "print/println write to stdout, eprint/eprintln to stderr, the ln variants add exactly one counted newline, all "
+    "return a byte count. It does NOT decide what the character state machine of format_buf produces for a given "
+    "format string (fill / width / alignment interplay): that is the behaviour of a loop over runtime characters.",
+    "core::fmt renders as documented; the state machine's output is not decided; " + TRUST,
+    "DESIGN.md §3 C12")
+
 NOT_APPLICABLE = {
-    "C12": "value-level equality with a reference renderer over an unbounded format grammar; no clause is visible in "
-           "the shape of format_buf's character state machine (DESIGN.md §4)",
-    "C18": "acceptance of RFC 4291 text forms and round-trip equality are value-level facts about a text parser; the "
-           "known '::' defect has no structural signature (DESIGN.md §4)",
 }
 
 PENDING_REASON = "check not built yet in this round (see DESIGN.md §8 build order); not claimed until it exists"
